@@ -1,6 +1,6 @@
 """C05 - see DESIGN.md §2 C05.  Deductive parts (contracts/) are added to this module as they are built; the bounded stand-in is checks/b05.py."""
 from vlib import env
-from checks.common import bounded_part, want, contract_sources, make_replay, t_oblig
+from checks.common import anchored, bounded_part, want, contract_sources, make_replay, t_oblig
 from pysym.harness import run_cases
 
 LEVEL = 'exploration'
@@ -18,6 +18,7 @@ def deductive(run):
 def main(run):
     env.setup()
     if want(run, 'P') or want(run, 'T'):
+      with anchored(run, 'C05/P'):
         deductive(run)
     bounded_part(run, 'C05')
     return FINISH
